@@ -50,7 +50,8 @@ def cases(draw):
     return {"env": env, "expr": recipe, "polyish": polyish,
             "lines": [[{k: [v.numerator, v.denominator] for k, v in a.items()},
                        {k: [v.numerator, v.denominator] for k, v in b.items()}] for a, b in lines],
-            "config": draw(st.sampled_from(["default", "default", "lowthr"]))}
+            "config": draw(st.sampled_from(["default", "default", "lowthr"])),
+            "prequery": draw(st.booleans())}
 
 
 def strategy(tier):
@@ -106,6 +107,25 @@ def check(case):
         if not is_expr(e):
             return Result.discard("not-an-expression", classes)
         try:
+            if case.get("prequery"):
+                # cache state: every sub-expression was classified on its own before the whole
+                classes.append("prequery")
+                stack, seen = [e], []
+                while stack:
+                    nd = stack.pop()
+                    seen.append(nd)
+                    for attr in ("left", "right", "operand"):
+                        ch = getattr(nd, attr, None)
+                        if is_expr(ch):
+                            stack.append(ch)
+                    for attr in ("vector", "expression"):
+                        vv = getattr(nd, attr, None)
+                        for ch in getattr(vv, "_expressions", []) or []:
+                            if is_expr(ch):
+                                stack.append(ch)
+                for nd in reversed(seen[1:]):
+                    nd.degree
+                    nd.is_linear()
             d1 = e.degree
             d2 = e.degree
             lin = e.is_linear()
